@@ -26,7 +26,7 @@ def check(ctx):
 
 
 MANIFEST = {
-    "technique": "static analysis: constant evaluation of the generated table from MIR + exact byte-class of the reader predicate by abstract interpretation; exhaustive table checks",
+    "technique": "static analysis: constant evaluation of the generated table from MIR + exact byte-class of the reader predicate by abstract interpretation; exhaustive table checks; loop-exit conditions of the unit reader; look-ahead guards of the number dispatcher; Hayson unit member on every path",
     "level": "Exhaustive static check of the whole database (every unit, every identifier), which the tests sample a handful of: lookup by any "
     "identifier returns its unit (table closure and uniqueness), and each unit's written symbol is re-read as one token by the Zinc number "
     "reader (symbol alphabet inside the reader's exact character class; no decimal/exponent ambiguity) and resolved by the same get_unit in Hayson.",
